@@ -36,7 +36,12 @@ fn case_t<T: Sc>(rng: &mut Rng, case: u64, out: &mut CaseOut) {
         }
     };
     out.seen("class", class);
-    out.count(if sf.stats.is_raw() { "fits_of_builder_models_without_wrapper" } else { "fits_through_the_forwarding_wrapper" });
+    out.count(if sf.stats.is_raw() { "fits_of_builder_models_without_wrapper" } else if sf.stats.is_clone() { "cloned_statistics_objects_judged" } else { "fits_through_the_forwarding_wrapper" });
+    if let Some(cp) = &sf.clone_problem {
+        out.evals += 1;
+        violation(out, stream, case, cp.clone(), json!({"problem": spec.to_json()}));
+        return;
+    }
     let invariant_first = matches!(&spec.model, ModelKind::Built(ms) | ModelKind::Hand(ms) if ms.basis.iter().position(|b| b.params().is_empty()).is_some_and(|i| i + 1 < ms.basis.len()));
     if invariant_first {
         out.count("models_with_a_parameter_free_function_before_other_functions");
